@@ -46,6 +46,13 @@ def parseStop : String → Option StopKind
 def parseClass : String → Option Class
   | "drained" => some .drained | "gated" => some .gated | "immediate" => some .immediate | "early" => some .early | _ => none
 
+/-- number of points: a plain number, or `<k>c+<m>` = k edge buffers + m -/
+def parseN (t : String) : Option Nat :=
+  match t.splitOn "c+" with
+  | [k, m] => do pure ((← k.toNat?) * edgeCap + (← m.toNat?))
+  | [v] => v.toNat?
+  | _ => none
+
 structure OutObs where
   idx : Nat
   total : Nat
@@ -194,7 +201,7 @@ def judge (_id : String) (lines : Array String) : Verdict := Id.run do
   let some toks := (chainT.splitOn ",").mapM parseNode | return .badop l
   let some stop := parseStop stopT | return .badop l
   let some cls := parseClass clsT | return .badop l
-  let some n := nT.toNat? | return .badop l
+  let some n := parseN nT | return .badop l
   let kinds := Kind.pass :: toks.map (·.kind)
   let input : Input := { chain := toks.map (·.shape), stop := stop, cls := cls, n := n }
   let cfg : Cfg := { cap := edgeCap, viaClose := stop == .close, hookLock := false, alertLeak := false }
